@@ -36,6 +36,10 @@ def flatten(node: Any, expander: Any, variables: Any, res: list[str]) -> bool:
                 raise
             del res[old_len:]
             log.warning("template recursion error ignored")
+        except MemoryLimitError as err:
+            # an over-long template name/argument voids this node only, not the whole article
+            del res[old_len:]
+            log.warning("%s: output of this node dropped", err)
         after = variables.count
         return before == after
     finally:
